@@ -24,6 +24,8 @@ pub enum Policy {
     Exponential { init: u64, cap: u64 },
     Jittered { init: u64, cap: u64, factor10: u8 },
     Custom,
+    /// custom interval function that keeps growing: attempt k waits k ms
+    CustomLinear,
 }
 
 fn one() -> u64 {
@@ -64,10 +66,11 @@ fn case_strategy(_tier: Tier) -> BoxedStrategy<RcCase> {
         3 => (1u64..=5, 1u64..=40).prop_map(|(init, cap)| Policy::Exponential { init, cap }),
         2 => (1u64..=5, 1u64..=40, 0u8..=10).prop_map(|(init, cap, factor10)| Policy::Jittered { init, cap, factor10 }),
         2 => Just(Policy::Custom),
+        1 => Just(Policy::CustomLinear),
     ];
     let outcome = prop_oneof![3 => Just(0u8), 5 => Just(1u8), 2 => Just(2u8)];
     let script = prop::collection::vec((prop_oneof![2 => Just(0u64), 1 => 0u64..=10], outcome), 1..=10);
-    (
+    let general = (
         prop_oneof![4 => (0u32..=5).prop_map(Some), 1 => Just(None)],
         policy,
         prop::bool::weighted(0.75),
@@ -98,8 +101,35 @@ fn case_strategy(_tier: Tier) -> BoxedStrategy<RcCase> {
                 setter_order,
                 requests,
             }
-        })
-        .boxed()
+        });
+    // long outage: one request fails 17-26 times in a row before it succeeds (or gives up), so
+    // that high attempt numbers of the policy are exercised end to end
+    let long = (
+        prop_oneof![2 => (17u32..=30).prop_map(Some), 1 => Just(None)],
+        prop_oneof![
+            3 => Just(Policy::CustomLinear),
+            1 => Just(Policy::Custom),
+            1 => (1u64..=3, 1u64..=40).prop_map(|(init, cap)| Policy::Exponential { init, cap }),
+            1 => (0u64..=2).prop_map(Policy::Fixed),
+        ],
+        17usize..=26,
+    )
+        .prop_map(|(max_attempts, policy, fails)| {
+            let mut script = vec![(0u64, 1u8); fails];
+            script.push((0, 0));
+            RcCase {
+                max_attempts,
+                policy,
+                retry_on_reconnect: true,
+                predicate: false,
+                concurrent: false,
+                step_ms: 1,
+                starts: vec![],
+                setter_order: 0,
+                requests: vec![script],
+            }
+        });
+    prop_oneof![20 => general, 1 => long].boxed()
 }
 
 fn build_policy(p: &Policy) -> ReconnectPolicy {
@@ -115,6 +145,14 @@ fn build_policy(p: &Policy) -> ReconnectPolicy {
             *factor10 as f64 / 10.0,
         ),
         Policy::Custom => ReconnectPolicy::Custom(Arc::new(CustomFn)),
+        Policy::CustomLinear => ReconnectPolicy::Custom(Arc::new(LinearFn)),
+    }
+}
+
+struct LinearFn;
+impl IntervalFunction for LinearFn {
+    fn next_interval(&self, attempt: usize) -> Duration {
+        Duration::from_millis(attempt as u64)
     }
 }
 
@@ -140,6 +178,11 @@ fn min_delay_ns(p: &Policy, k: usize) -> Option<u128> {
                 let f = *factor10 as f64 / 10.0;
                 Some((base.as_nanos() as f64 * (1.0 - f) * (1.0 - 1e-9)).max(0.0) as u128)
             }
+            // the custom interval functions are the harness's own: computed here, not through the
+            // policy object under test
+            Policy::Custom => Some(CUSTOM_MS[att % CUSTOM_MS.len()] as u128 * 1_000_000),
+            Policy::CustomLinear => Some(att as u128 * 1_000_000),
+            Policy::Fixed(ms) => Some(*ms as u128 * 1_000_000),
             other => build_policy(other).delay_for_attempt(att).map(|d| d.as_nanos()),
         }
     };
